@@ -28,7 +28,8 @@ func init() {
 			"R11 a repeated metavariable compares literally (= C02-R3/R7): the matcher captured at the first occurrence is compiled from the captured code by a fresh compiler with no metavariable table; R12 every matcher hands its sub-matchers projections of its own candidate (= C03-R9). " +
 			"NOT decided: correctness of reflect, go/parser and astutil.Apply; semantic adequacy of the pattern parse (pgo); interaction of overlapping matches; which text ends up in the output (C03/C05)." +
 			" After F15: the recorded matches are replaced last-recorded first (innermost first)." +
-			" R9 also: the section splitter hands a line on as content[startOffset:offset] (untrimmed). R13 a half-applied change is never emitted (= C03-R11). Dispatch tables kept as data and higher-order loop helpers (collect / matchEach) are read through their summaries.",
+			" R9 also: the section splitter hands a line on as content[startOffset:offset] (untrimmed). R13 a half-applied change is never emitted (= C03-R11). Dispatch tables kept as data and higher-order loop helpers (collect / matchEach) are read through their summaries." +
+			" R14 the list search tries every position at which a section still fits (the candidate loop runs while i+len(want) <= len(got)); R15 an unterminated last line of the patch file is a line.",
 		Trusted:     commonTrusted,
 		Assumptions: commonAssumptions,
 	})
@@ -59,6 +60,13 @@ func runC01(r *an.Run) {
 	c06MatchedFlagAs(r, "R13-a-half-applied-change-is-never-emitted")
 	c09APIFailure(r)
 	relabel(r, "R4-failure-leaves-file-untouched", "R13-a-half-applied-change-is-never-emitted")
+	// an instance at the very end of a list is an instance: the search for a section tries every position at
+	// which the section still fits, the end of the list included (for the empty section between two "...")
+	c04AnchoringAndConsumption(r)
+	relabel(r, "R3-anchoring-and-consumption", "R14-the-list-search-tries-every-position")
+	relabel(r, "R4-recorded-run-is-skipped-run", "R14-the-list-search-tries-every-position")
+	relabel(r, "R5-search-completeness", "R14-the-list-search-tries-every-position")
+	unterminatedLastLineIsALine(r, "R15-an-unterminated-last-line-is-a-line")
 }
 
 const (
